@@ -194,7 +194,7 @@ theorem top_int (i : Int) (hi : -9223372036854775800 < i ∧ i < 922337203685477
   by_cases hneg : i < 0 <;> simp [hneg] <;> omega
 
 /-- every int64 as the whole document: `nvInt` (at the limit a `json.Number` with the same digits) -/
-theorem top_int_all (i : Int) (hi : -9223372036854775808 ≤ i ∧ i ≤ 9223372036854775807) :
+theorem top_int_all (i : Int) (hi : -9223372036854775808 ≤ i ∧ i ≤ 18446744073709551615) :
     C10.parsesTo (fmtInt i) (nvInt i) := by
   by_cases hmid : -9223372036854775800 < i ∧ i < 9223372036854775800
   · have e : nvInt i = .int i := by
@@ -208,15 +208,20 @@ theorem top_int_all (i : Int) (hi : -9223372036854775808 ≤ i ∧ i ≤ 9223372
       obtain ⟨out, ho, hd⟩ := finish_num st' p' (Or.inl m3) a3 b3 c3
       exact ⟨st', f', p', out, hrun, ho, by rw [hd, n3]⟩
     by_cases hpos : 0 ≤ i
-    · obtain ⟨k, hk, hk1, hk2⟩ := edge_text i.natAbs (by omega)
-      have htxt : fmtInt i = P18 ++ [UInt8.ofNat (48 + k)] := by
+    · have htxt : fmtInt i = fmtNat i.natAbs := by
         have : ¬ i < 0 := by omega
-        simp [fmtInt, this, hk2]
-      have e : nvInt i = .big (P18 ++ [UInt8.ofNat (48 + k)]) := by
+        simp [fmtInt, this]
+      have e : nvInt i = .big (fmtNat i.natAbs) := by
         unfold nvInt; rw [if_neg (by omega), htxt]
       rw [e, htxt]
-      apply parsesTo_of_fin _ _ (bomRule_keep_head _ 57 _ rfl (by decide))
-      obtain ⟨st', f', p', hrun, m3, n3, a3, b3, c3, d3, e3⟩ := edge_run_pos k hk {} {} {} [] rfl rfl
+      obtain ⟨d0, ds, he, _, _, h19⟩ := Writer.fmtNat_shape i.natAbs
+      rw [fmtNat_eq] at he
+      have hne : d0 ≠ 0xEF := by
+        intro e0; subst e0
+        have := h19 (by omega)
+        revert this; decide
+      apply parsesTo_of_fin _ _ (bomRule_keep_head _ d0 ds he hne)
+      obtain ⟨st', f', p', hrun, m3, n3, a3, b3, c3, d3, e3⟩ := edge_run_posN i.natAbs (by omega) {} {} {} [] rfl rfl
       rw [List.append_nil] at hrun
       exact hfin st' f' p' _ _ hrun m3 n3 a3 b3 c3
     · obtain ⟨k, hk, hk1, hk2⟩ := edge_text i.natAbs (by omega)
